@@ -20,6 +20,8 @@ func main() {
 	switch driver {
 	case "route":
 		runRoute(*in, *out, *seed)
+	case "chain":
+		runChain(*in, *out, *seed)
 	case "cors":
 		runCors(*in, *out, *seed)
 	case "nego":
